@@ -299,11 +299,14 @@ func (p *Process) getBackoff() time.Duration {
 }
 
 func (p *Process) getProcessEnvironment() []string {
-	env := []string{
-		"PC_PROC_NAME=" + p.procConf.Name,
-		EnvReplicaNum + "=" + strconv.Itoa(p.procConf.ReplicaNum),
-	}
-	env = append(env, os.Environ()...)
+	// the injected variables come after the inherited ones: a process-compose that is itself
+	// run by another process-compose must not hand the outer process's name and replica
+	// number down
+	env := append([]string{}, os.Environ()...)
+	env = append(env,
+		"PC_PROC_NAME="+p.procConf.Name,
+		EnvReplicaNum+"="+strconv.Itoa(p.procConf.ReplicaNum),
+	)
 	env = append(env, p.globalEnv...)
 	env = append(env, p.procConf.Environment...)
 	return env
